@@ -83,7 +83,10 @@ func (self *Lexer) skipLineComment() {
 		self.advance()
 	}
 
-	self.advance()
+	// skip the terminating newline (if the comment does not end the input)
+	if self.currentChar != nil {
+		self.advance()
+	}
 }
 
 func (self *Lexer) skipBlockComment() {
